@@ -1156,6 +1156,13 @@ impl<'a> Gen<'a> {
         self.in_locals = false;
         if self.r.chance(1, 4) {
             t.refs.push((if self.r.chance(1, 2) { "myref".into() } else { "myrefs".into() }, self.utxo_ref()));
+            // up to five more reference blocks: their order in the IR is the order of the source
+            if self.r.chance(1, 2) {
+                for k in 0..1 + self.r.below(5) {
+                    let x = self.utxo_ref();
+                    t.refs.push((format!("ref{}", k), x));
+                }
+            }
         }
         let input_decls = self.inputs.clone();
         self.inputs.clear();
